@@ -43,7 +43,7 @@ func HFlistEncode() {
 	case vfsx.KReg:
 		node.Data = nd_bytes(n)
 	case vfsx.KLink:
-		node.Target = nd_string(1)
+		node.Target = symTarget(1)
 		node.Perm = 0o777
 		perm = 0o777
 	case vfsx.KChr, vfsx.KBlk:
